@@ -518,8 +518,15 @@ func (m *mctx) expr(e ast.Expr) string {
 		bad("slice expression with both or no bounds")
 	case *ast.CompositeLit:
 		if tv, ok := m.g.info.Types[x]; ok {
-			if _, isSl := tv.Type.Underlying().(*types.Slice); isSl && len(x.Elts) == 0 {
-				return "([] : " + m.g.leanType(tv.Type) + ")"
+			if _, isSl := tv.Type.Underlying().(*types.Slice); isSl {
+				var es []string
+				for _, el := range x.Elts {
+					if _, isKV := el.(*ast.KeyValueExpr); isKV {
+						bad("slice literal with indices")
+					}
+					es = append(es, m.expr(el))
+				}
+				return "([" + strings.Join(es, ", ") + "] : " + m.g.leanType(tv.Type) + ")"
 			}
 			if st, isSt := tv.Type.Underlying().(*types.Struct); isSt && st.NumFields() == 0 {
 				return "()"
